@@ -49,6 +49,12 @@ oracle (the real code alone)
                     int / None / name, legal nesting) round-trip in the same sense
   literal_zero_step_rejected : no accepted circuit has a slice alias with the literal step 0 (`notate_slice` would not
                     write it); programs with `map a r[x:y:0]` next to a let bound are generated and must be rejected
+  OPEN FINDING (not part of `run`; `--open-findings` runs it, `probe_open_findings()` returns it):
+  big_computed_int : `register r[N]; let m -N; map a r[m:]; map b a[:]` with N = 4300 nines is ACCEPTED, the defaulted
+                    stop of `b` is the 4301-digit size 2N of `a`, and `generate_jaqal_program` raises ValueError
+                    (`str(int)` refuses more than 4300 digits).  The Lean statement of C01 therefore carries the
+                    hypothesis `IntsBounded` (`C01_roundtrip_bounded`; `C01_big_stop` is this program in the model).
+                    The same program with N = 4299 nines round-trips.
   (formerly separate oracles `literal_zero_step_survives`, `builder_api_integral_floats` and
   `after_passes_with_shadowing_parameters` recorded three defects of the library that have been repaired; their cases
   are now ordinary cases of the oracles above: an integral python float as register size / map index is stored as an
@@ -1481,6 +1487,27 @@ def run(seed: int, n: int, driver: str = DEFAULT_DRIVER, thorough: bool = False)
             "samples": acc.samples, "nontrivial": len(acc.nontrivial)}
 
 
+def big_int_text(digits: int) -> str:
+    n = "9" * digits
+    return f"register r[{n}]\nlet m -{n}\nmap a r[m:]\nmap b a[:]\n"
+
+
+def probe_open_findings() -> dict:
+    """the known open finding of C01 on the current tree: {name: {"accepted": bool, "answer": ...}}"""
+    _imports()
+    out = {}
+    for name, digits in (("big_computed_int_4300", 4300), ("big_computed_int_4299", 4299)):
+        text = big_int_text(digits)
+        c, err = impl_parse_program(text, False)
+        if c is None:
+            out[name] = {"accepted": False, "answer": err}
+            continue
+        ans, t, c2 = impl_round_trip(c, False)
+        ans = {k: v for k, v in ans.items() if k not in ("text2", "circuit2")}
+        out[name] = {"accepted": True, "answer": ans, "round_trip_ok": bool(t is not None and c2 is not None and c == c2)}
+    return out
+
+
 def replay(case: dict, driver: str = DEFAULT_DRIVER) -> dict:
     _imports()
     acc = Acc(driver)
@@ -1519,7 +1546,12 @@ def main():
     ap.add_argument("--seed", type=int, default=0)
     ap.add_argument("--thorough", action="store_true")
     ap.add_argument("--json", action="store_true")
+    ap.add_argument("--open-findings", action="store_true", help="only run the probes of the known open finding")
     a = ap.parse_args()
+    if a.open_findings:
+        res = probe_open_findings()
+        print(json.dumps(res, indent=1))
+        sys.exit(0 if all(r.get("round_trip_ok") or not r["accepted"] for r in res.values()) else 1)
     res = run(a.seed, a.n, a.driver, a.thorough)
     if a.json:
         print(json.dumps(res))
